@@ -1200,3 +1200,95 @@ Lemma teardown_complete_sw r w : r = true -> w = true -> forall h order x b,
   torn (run r w h) = false -> info (run r w h) x = Some (KManaged, b) ->
   fin_count (run r w (h ++ [ETeardown order])) x = 1 /\ free_count (run r w (h ++ [ETeardown order])) x = 1.
 Proof. intros -> ->. exact teardown_complete. Qed.
+
+(* ------------------------------------------------------------------ through an owning Box *)
+(* the chain of ownership that starts at o, through registered objects *)
+Inductive Reach (s : st) : id -> id -> Prop :=
+| reach_refl o : Reach s o o
+| reach_step o p x : owned s o = Some p -> In p (regids s) -> Reach s p x -> Reach s o x.
+
+Lemma clo_reach s s' :
+  GInv [] s -> Clo s s' -> running s = true ->
+  forall y x, Reach s y x -> fin_count s y = 0 -> done s' y -> done s' x.
+Proof.
+  intros G C Hrun y x HR. induction HR as [o | o p x Hown Hin HR IH]; intros H0 Hd; [exact Hd|].
+  apply IH.
+  - apply (g_fresh _ _ G). left. exact Hin.
+  - apply (C Hrun o p H0); [destruct Hd; lia | exact Hown | left; exact Hin].
+Qed.
+
+(* T4: a delete runs down the whole chain of owning Boxes: with the collector running, del /
+   del_root / del_raw of o finalises, exactly once and at once, every object reachable from o
+   through ownership of registered objects *)
+Theorem delete_reaches_owned h k o x :
+  no_alloc_in_stop_window true true h = true ->
+  torn (runF h) = false -> live (runF h) o = true -> kind_of (runF h) o = Some k ->
+  running (runF h) = true -> Reach (runF h) o x ->
+  done (runF (h ++ [EDel k o])) x.
+Proof.
+  intros Hc Ht Hlive Hk Hrun HR.
+  pose proof (explicit_delete_finalises h k o Hc Ht Hlive Hk (or_intror Hrun)) as Hdo.
+  rewrite run_snoc in *.
+  pose proof (run_inv h) as S. pose proof (run_regall h Hc) as R.
+  set (s := runF h) in *.
+  pose proof (si_g _ S) as G. pose proof (si_pend _ S) as Hpe.
+  destruct (live_spec _ _ Hlive) as [Hf0 Hinf].
+  assert (Hstep : forall z, done (step1 true true s (EDel k o)) z -> done (stepF s (EDel k o)) z).
+  { intros z. apply done_step_of_step1. exact Ht. }
+  assert (Hdo1 : done (step1 true true s (EDel k o)) o).
+  { unfold step in Hdo. rewrite Ht in Hdo. destruct (dangling (step1 true true s (EDel k o))); exact Hdo. }
+  apply Hstep.
+  assert (C : Clo s (step1 true true s (EDel k o))).
+  { cbn [step1]. rewrite Hlive, Hk. simpl andb.
+    assert (Hkk : kind_eqb k k = true) by (destruct k; reflexivity). rewrite Hkk.
+    destruct k.
+    - destruct (gc_rem_ok _ _ (finalise_ok (fuel_of s)) [] s o G ltac:(unfold fuel_of, measure; lia)) as (_ & _ & _ & C). exact C.
+    - destruct (gc_rem_ok _ _ (finalise_ok (fuel_of s)) [] s o G ltac:(unfold fuel_of, measure; lia)) as (_ & _ & _ & C). exact C.
+    - assert (Hno : ~ In o (regids s)).
+      { intros Hin. unfold regids in Hin. apply in_map_iff in Hin. destruct Hin as [[y r] [Hy Hin]]. simpl in Hy. subst y.
+        destruct (si_reginfo _ S o r Hin) as [b' Hb']. unfold kind_of in Hk. rewrite Hb' in Hk. simpl in Hk. destruct r; discriminate. }
+      assert (Hnp : ~ In o (pids s)) by (unfold pids; rewrite Hpe; intros []).
+      destruct (finalise_ok (fuel_of s) [] s o G Hno Hnp Hf0 Hinf ltac:(unfold fuel_of, measure; lia)) as (_ & _ & _ & C). exact C. }
+  exact (clo_reach s _ G C Hrun o x HR Hf0 Hdo1).
+Qed.
+
+Lemma delete_reaches_owned_sw r w : r = true -> w = true -> forall h k o x,
+  no_alloc_in_stop_window r w h = true ->
+  torn (run r w h) = false -> live (run r w h) o = true -> kind_of (run r w h) o = Some k ->
+  running (run r w h) = true -> Reach (run r w h) o x ->
+  fin_count (run r w (h ++ [EDel k o])) x = 1 /\ free_count (run r w (h ++ [EDel k o])) x = 1.
+Proof. intros -> ->. exact delete_reaches_owned. Qed.
+
+(* non-vacuity: in sample_history the Box 1 owns object 2, both registered *)
+Example sample_reach : Reach (runF sample_history) 1 2 /\ Reach (runF sample_history) 3 4.
+Proof.
+  split.
+  - apply (reach_step _ 1 2 2); [reflexivity | vm_compute; tauto | apply reach_refl].
+  - apply (reach_step _ 3 4 4); [reflexivity | vm_compute; tauto | apply reach_refl].
+Qed.
+
+(* T5: a collection that reclaims a Box (unmarked, not a root) finalises, exactly once, everything
+   the Box reaches through ownership — whatever the order in which the sweep meets owner and owned,
+   and whether or not the owned objects were marked *)
+Theorem collect_reaches_owned h order marks b x :
+  torn (runF h) = false -> running (runF h) = true ->
+  In b (regids (runF h)) -> is_root (runF h) b = false -> ~ In b marks ->
+  Reach (runF h) b x ->
+  done (runF (h ++ [ECollect order marks])) x.
+Proof.
+  intros Ht Hrun Hin Hroot Hm HR. rewrite run_snoc.
+  pose proof (run_inv h) as S. set (s := runF h) in *.
+  pose proof (si_g _ S) as G. pose proof (si_pend _ S) as Hpe.
+  apply done_step_of_step1; [exact Ht|]. cbn [step1].
+  destruct (sweep_ok order marks s G Hpe) as (_ & _ & _ & Hdead & C).
+  apply (clo_reach s _ G C Hrun b x HR).
+  - apply (g_fresh _ _ G). left. exact Hin.
+  - apply Hdead; assumption.
+Qed.
+
+Lemma collect_reaches_owned_sw r w : r = true -> w = true -> forall h order marks b x,
+  torn (run r w h) = false -> running (run r w h) = true ->
+  In b (map fst (reg (run r w h))) -> is_root (run r w h) b = false -> ~ In b marks ->
+  Reach (run r w h) b x ->
+  fin_count (run r w (h ++ [ECollect order marks])) x = 1 /\ free_count (run r w (h ++ [ECollect order marks])) x = 1.
+Proof. intros -> ->. exact collect_reaches_owned. Qed.
